@@ -46,6 +46,7 @@ _INVVIOL = re.compile(r"Invariant (\S+) is violated|Action property (\S+) is vio
 
 class Result:
     def __init__(self, out, rc, wall):
+        out = "\n".join(l for l in out.splitlines() if not l.startswith(("Parsing file", "Semantic processing", "Linting of")))
         self.out = out
         self.rc = rc
         self.wall = wall
